@@ -2,7 +2,7 @@ SPECIFICATION TraceSpec
 CONSTANTS
   Periods = {8}
   Kinds = {"sync"}
-  JF = {6, 7, 8, 9}
+  JF = {6, 7, 8, 9, 10}
   Ticks = {0}
   Back = 1000
   MaxWall = 100000000
